@@ -670,3 +670,413 @@ Section ModalInvariance.
     unfold CG. rewrite H_curl_grad. ring.
   Qed.
 End ModalInvariance.
+
+(** ** two-term linear combinations *)
+Section Linear2.
+  Context {F : Type} {o : Ops F} {Fc : FieldC o}.
+  Add Field FFl2 : (field_c : FieldTh o).
+
+  Lemma lin_comb2 {A B} (L : (A -> F) -> B -> F) (HL : linear L) (x z1 z2 : A -> F) (t1 t2 : F) :
+    (forall a, x a = t1 * z1 a + t2 * z2 a) -> forall b, L x b = t1 * L z1 b + t2 * L z2 b.
+  Proof.
+    intros E b.
+    rewrite (lin_comb L HL x (fun a => t1 * z1 a) z2 t2) by exact E.
+    rewrite (lin_scal L HL (fun a => t1 * z1 a) z1 t1) by reflexivity. reflexivity.
+  Qed.
+  Lemma lin2_zero {A B} (D : (A -> F) -> (A -> F) -> B -> F) (HD : linear2 D) b :
+    D (fun _ => 0) (fun _ => 0) b = 0.
+  Proof.
+    destruct HD as [He Hl].
+    pose proof (Hl 1 (fun _ => 0) (fun _ => 0) (fun _ => 0) (fun _ => 0) b) as E. cbv beta in E.
+    rewrite (He (fun _ : A => 0 + 1 * 0) (fun _ => 0) (fun _ : A => 0 + 1 * 0) (fun _ => 0)) in E
+      by (intros; ring).
+    set (z := D (fun _ : A => 0) (fun _ : A => 0) b) in *.
+    assert (X : z + 1 * z - z = z - z) by (rewrite <- E; reflexivity).
+    transitivity (z + 1 * z - z); [ring|]. rewrite X. ring.
+  Qed.
+  Lemma lin2_comb2 {A B} (D : (A -> F) -> (A -> F) -> B -> F) (HD : linear2 D)
+        (x1 x2 y1 y2 z1 z2 : A -> F) (t1 t2 : F) :
+    (forall a, x1 a = t1 * y1 a + t2 * z1 a) -> (forall a, x2 a = t1 * y2 a + t2 * z2 a) ->
+    forall b, D x1 x2 b = t1 * D y1 y2 b + t2 * D z1 z2 b.
+  Proof.
+    intros E1 E2 b.
+    rewrite (lin2_comb D HD x1 (fun a => t1 * y1 a) z1 x2 (fun a => t1 * y2 a) z2 t2 E1 E2 b).
+    rewrite (lin2_comb D HD (fun a => t1 * y1 a) (fun _ => 0) y1 (fun a => t1 * y2 a) (fun _ => 0) y2 t1)
+      by (intros; cbv beta; ring).
+    rewrite lin2_zero by exact HD. ring.
+  Qed.
+End Linear2.
+
+(** ** divergence / vorticity equations of the moist classes at the modal layer *)
+Section ModalMoist.
+  Context {F : Type} {o : Ops F} {Fc : FieldC o}.
+  Add Field FFmm : (field_c : FieldTh o).
+  Variables W P : Type.
+  Variable toM : (P -> F) -> W -> F.
+  Variable divc curlc : (W -> F) -> (W -> F) -> W -> F.
+  Variable lap clip : (W -> F) -> W -> F.
+  Hypothesis toM_lin : linear toM.
+  Hypothesis divc_lin : linear2 divc.
+  Hypothesis curlc_lin : linear2 curlc.
+  Hypothesis lap_lin : linear lap.
+  Hypothesis clip_lin : linear clip.
+  Variable c : @PEcfg F.
+  Hypothesis R_nz : cR c <> 0.
+  Variable grav : F.
+  Variable m : @Moist F.
+  Variable X : P -> @NCol F.
+  Variable T : nat -> P -> F.
+  Variable Tm : nat -> W -> F.
+  Variable lnps onem orog : W -> F.
+  (** nodal specific humidity, its nodal cos_lat_grad, nodal laplacian(lnps) *)
+  Variable q gqx gqy : P -> nat -> F.
+  Variable lapn : P -> F.
+
+  Hypothesis H_div_grad : forall w,
+      clip (divc (toM (fun p => n_gx (X p) * n_sec2 (X p))) (toM (fun p => n_gy (X p) * n_sec2 (X p)))) w = lap lnps w.
+  Hypothesis H_curl_grad : forall w,
+      clip (curlc (toM (fun p => n_gx (X p) * n_sec2 (X p))) (toM (fun p => n_gy (X p) * n_sec2 (X p)))) w = 0.
+  Hypothesis lap_const : forall w, lap onem w = 0.
+  (** Leibniz rule on the nodal side for q * grad(lnps) (alias-free product) *)
+  Definition qgx (r : nat) (p : P) : F := q p r * (n_gx (X p) * n_sec2 (X p)).
+  Definition qgy (r : nat) (p : P) : F := q p r * (n_gy (X p) * n_sec2 (X p)).
+  Definition leib_div (r : nat) (p : P) : F :=
+    q p r * lapn p + n_sec2 (X p) * (gqx p r * n_gx (X p) + gqy p r * n_gy (X p)).
+  Definition leib_curl (r : nat) (p : P) : F :=
+    n_sec2 (X p) * (n_gx (X p) * gqy p r - n_gy (X p) * gqx p r).
+  Hypothesis H_leibniz : forall r w,
+      clip (fun w' => divc (toM (qgx r)) (toM (qgy r)) w' - toM (leib_div r) w') w = 0.
+  Hypothesis H_leibniz_curl : forall r w,
+      clip (fun w' => curlc (toM (qgx r)) (toM (qgy r)) w' + toM (leib_curl r) w') w = 0.
+
+  Let Xs := Xs P X T.
+  Let Tms := Tms W Tm onem.
+
+  Definition rt_abs_m (p : P) (k : nat) : F := cR c * T k p * (1 + moisture_contribution c m (q p) k).
+  Definition cu_abs_m (p : P) (r : nat) : F := combined_u c true (X p) (rt_abs_m p) r.
+  Definition cv_abs_m (p : P) (r : nat) : F := combined_v c true (X p) (rt_abs_m p) r.
+  Definition geo_abs_m (p : P) (r : nat) : F :=
+    geo_diff false c (fun k => q p k * T k p * (mRv m / cR c - 1)) r.
+  Definition div_base_m (r : nat) (w' : W) : F :=
+    - divc (toM (fun p => cu_abs_m p r)) (toM (fun p => cv_abs_m p r)) w'
+    + - lap (toM (fun p => kinetic (X p) r)) w' + - grav * lap orog w'
+    + - lap (toM (fun p => geo_abs_m p r)) w'.
+  Definition vort_base_m (r : nat) (w' : W) : F :=
+    - curlc (toM (fun p => cu_abs_m p r)) (toM (fun p => cv_abs_m p r)) w'.
+
+  Lemma cu_split_m (Tref : nat -> F) p r :
+    combined_u (with_tref c Tref) true (Xs Tref p) (rt_moist (with_tref c Tref) m (Xs Tref p) (q p)) r
+    = cu_abs_m p r + (- Tref r) * (cR c * (n_gx (X p) * n_sec2 (X p)) + (mRv m - cR c) * qgx r p).
+  Proof.
+    unfold cu_abs_m, rt_abs_m, combined_u, rt_moist, moisture_contribution, qgx. cbv zeta.
+    change (sigma_dot_full (with_tref c Tref) (Xs Tref p)) with (sigma_dot_full c (X p)).
+    change (vertical_tendency (with_tref c Tref)) with (vertical_tendency c).
+    unfold Xs, Thm.PrimEq.Xs. cbn [with_tref with_temp cR cTref n_temp n_u n_v n_vort n_f n_sec2 n_gx n_gy].
+    field. exact R_nz.
+  Qed.
+  Lemma cv_split_m (Tref : nat -> F) p r :
+    combined_v (with_tref c Tref) true (Xs Tref p) (rt_moist (with_tref c Tref) m (Xs Tref p) (q p)) r
+    = cv_abs_m p r + (- Tref r) * (cR c * (n_gy (X p) * n_sec2 (X p)) + (mRv m - cR c) * qgy r p).
+  Proof.
+    unfold cv_abs_m, rt_abs_m, combined_v, rt_moist, moisture_contribution, qgy. cbv zeta.
+    change (sigma_dot_full (with_tref c Tref) (Xs Tref p)) with (sigma_dot_full c (X p)).
+    change (vertical_tendency (with_tref c Tref)) with (vertical_tendency c).
+    unfold Xs, Thm.PrimEq.Xs. cbn [with_tref with_temp cR cTref n_temp n_u n_v n_vort n_f n_sec2 n_gx n_gy].
+    field. exact R_nz.
+  Qed.
+  Lemma hum_div_split (Tref : nat -> F) p r :
+    humidity_div_nodal (with_tref c Tref) m (Xs Tref p) (q p) (gqx p) (gqy p) (lapn p) r
+    = (Tref r * (mRv m - cR c)) * leib_div r p.
+  Proof.
+    unfold humidity_div_nodal, leib_div. cbv zeta.
+    unfold Xs, Thm.PrimEq.Xs. cbn [with_tref with_temp cR cTref n_sec2 n_gx n_gy]. ring.
+  Qed.
+  Lemma hum_curl_split (Tref : nat -> F) p r :
+    humidity_curl_nodal (with_tref c Tref) m (Xs Tref p) (gqx p) (gqy p) r
+    = (Tref r * (mRv m - cR c)) * leib_curl r p.
+  Proof.
+    unfold humidity_curl_nodal, leib_curl. cbv zeta.
+    unfold Xs, Thm.PrimEq.Xs. cbn [with_tref with_temp cR cTref n_sec2 n_gx n_gy]. ring.
+  Qed.
+  Lemma hum_geo_abs (Tref : nat -> F) p r :
+    humidity_geo_nodal (with_tref c Tref) false m (Xs Tref p) (q p) r = geo_abs_m p r.
+  Proof.
+    unfold humidity_geo_nodal, geo_abs_m, geo_diff, geo_diff_dense, humidity_temperature_diff.
+    cbn [with_tref cK cR cls cTref]. apply sumn_ext. intros k _.
+    unfold Xs, Thm.PrimEq.Xs. cbn [with_temp n_temp]. ring.
+  Qed.
+
+  (** the implicit divergence term, for any class *)
+  Lemma div_implicit_closed (Tref : nat -> F) r w :
+    div_tendency_implicit W lap (with_tref c Tref) (Tms Tref) lnps r w
+    = - lap (fun w' => geo_diff false c (fun k => Tm k w') r) w - cR c * Tref r * lap lnps w.
+  Proof.
+    unfold div_tendency_implicit.
+    set (gs := sumn (cK c) (fun k => geo_weights (cK c) (cR c) (cls c) r k * Tref k)).
+    rewrite (lin_comb lap lap_lin
+               (fun w' => div_implicit_potential (with_tref c Tref) false (fun k => Tms Tref k w') (lnps w') r)
+               (fun w' => geo_diff false c (fun k => Tm k w') r + (- gs) * onem w')
+               lnps (cR c * Tref r)).
+    2:{ intros w'. unfold div_implicit_potential, geo_diff, geo_diff_dense, Tms, Thm.PrimEq.Tms, gs.
+        cbn [with_tref cK cR cls cTref].
+        rewrite (sumn_ext (cK c) (fun k => geo_weights (cK c) (cR c) (cls c) r k * (Tm k w' - Tref k * onem w'))
+                   (fun k => geo_weights (cK c) (cR c) (cls c) r k * Tm k w'
+                             - geo_weights (cK c) (cR c) (cls c) r k * Tref k * onem w')) by (intros; ring).
+        rewrite sumn_sub, sumn_scal_r. ring. }
+    rewrite (lin_comb lap lap_lin (fun w' => geo_diff false c (fun k => Tm k w') r + (- gs) * onem w')
+               (fun w' => geo_diff false c (fun k => Tm k w') r) onem (- gs)) by reflexivity.
+    rewrite lap_const. ring.
+  Qed.
+
+  Theorem divergence_modal_closed_moist (Tref : nat -> F) r w :
+    div_tendency_explicit W P toM divc lap clip (with_tref c Tref) grav (Xs Tref)
+        (fun p => rt_moist (with_tref c Tref) m (Xs Tref p) (q p)) orog
+        (fun w' => humidity_div_modal W P toM lap (with_tref c Tref) m (Xs Tref) q gqx gqy lapn r w') r w
+    + div_tendency_implicit W lap (with_tref c Tref) (Tms Tref) lnps r w
+    = clip (div_base_m r) w - lap (fun w' => geo_diff false c (fun k => Tm k w') r) w.
+  Proof.
+    rewrite div_implicit_closed. unfold div_tendency_explicit.
+    set (DG := divc (toM (fun p => n_gx (X p) * n_sec2 (X p))) (toM (fun p => n_gy (X p) * n_sec2 (X p)))).
+    set (LB := fun w' => divc (toM (qgx r)) (toM (qgy r)) w' - toM (leib_div r) w').
+    set (Z := fun w' => cR c * DG w' + (mRv m - cR c) * LB w').
+    rewrite (lin_comb clip clip_lin _ (div_base_m r) Z (Tref r)).
+    2:{ intros w'. unfold div_base_m, Z, LB, DG, humidity_div_modal.
+        rewrite (lin2_comb divc divc_lin _ _ _ _ _ _ (- Tref r)
+                   (fun p => lin_comb toM toM_lin _ _ _ _ (fun a => cu_split_m Tref a r) p)
+                   (fun p => lin_comb toM toM_lin _ _ _ _ (fun a => cv_split_m Tref a r) p) w').
+        rewrite (lin2_comb2 divc divc_lin _ _ (toM (fun a => n_gx (X a) * n_sec2 (X a))) (toM (fun a => n_gy (X a) * n_sec2 (X a)))
+                   (toM (qgx r)) (toM (qgy r)) (cR c) (mRv m - cR c)
+                   (fun p => lin_comb2 toM toM_lin _ (fun a => n_gx (X a) * n_sec2 (X a)) (qgx r) _ _ (fun a => eq_refl) p)
+                   (fun p => lin_comb2 toM toM_lin _ (fun a => n_gy (X a) * n_sec2 (X a)) (qgy r) _ _ (fun a => eq_refl) p) w').
+        rewrite (lin_scal toM toM_lin _ (leib_div r) (Tref r * (mRv m - cR c)) (fun a => hum_div_split Tref a r) w').
+        rewrite (lin_ext lap lap_lin _ (toM (fun p => geo_abs_m p r))
+                   (lin_ext toM toM_lin _ (fun p => geo_abs_m p r) (fun a => hum_geo_abs Tref a r)) w').
+        change (fun p => kinetic (Xs Tref p) r) with (fun p => kinetic (X p) r).
+        ring. }
+    unfold Z. rewrite (lin_comb2 clip clip_lin _ DG LB (cR c) (mRv m - cR c) (fun a => eq_refl) w).
+    unfold DG, LB. rewrite H_div_grad, H_leibniz. ring.
+  Qed.
+
+  Theorem vorticity_modal_closed_moist (Tref : nat -> F) r w :
+    vort_tendency_explicit W P toM curlc clip (with_tref c Tref) (Xs Tref)
+        (fun p => rt_moist (with_tref c Tref) m (Xs Tref p) (q p))
+        (fun w' => humidity_curl_modal W P toM (with_tref c Tref) m (Xs Tref) gqx gqy r w') r w
+    = clip (vort_base_m r) w.
+  Proof.
+    unfold vort_tendency_explicit.
+    set (CG := curlc (toM (fun p => n_gx (X p) * n_sec2 (X p))) (toM (fun p => n_gy (X p) * n_sec2 (X p)))).
+    set (LC := fun w' => curlc (toM (qgx r)) (toM (qgy r)) w' + toM (leib_curl r) w').
+    set (Z := fun w' => cR c * CG w' + (mRv m - cR c) * LC w').
+    rewrite (lin_comb clip clip_lin _ (vort_base_m r) Z (Tref r)).
+    2:{ intros w'. unfold vort_base_m, Z, LC, CG, humidity_curl_modal.
+        rewrite (lin2_comb curlc curlc_lin _ _ _ _ _ _ (- Tref r)
+                   (fun p => lin_comb toM toM_lin _ _ _ _ (fun a => cu_split_m Tref a r) p)
+                   (fun p => lin_comb toM toM_lin _ _ _ _ (fun a => cv_split_m Tref a r) p) w').
+        rewrite (lin2_comb2 curlc curlc_lin _ _ (toM (fun a => n_gx (X a) * n_sec2 (X a))) (toM (fun a => n_gy (X a) * n_sec2 (X a)))
+                   (toM (qgx r)) (toM (qgy r)) (cR c) (mRv m - cR c)
+                   (fun p => lin_comb2 toM toM_lin _ (fun a => n_gx (X a) * n_sec2 (X a)) (qgx r) _ _ (fun a => eq_refl) p)
+                   (fun p => lin_comb2 toM toM_lin _ (fun a => n_gy (X a) * n_sec2 (X a)) (qgy r) _ _ (fun a => eq_refl) p) w').
+        rewrite (lin_scal toM toM_lin _ (leib_curl r) (Tref r * (mRv m - cR c)) (fun a => hum_curl_split Tref a r) w').
+        ring. }
+    unfold Z. rewrite (lin_comb2 clip clip_lin _ CG LC (cR c) (mRv m - cR c) (fun a => eq_refl) w).
+    unfold CG, LC. rewrite H_curl_grad, H_leibniz_curl. ring.
+  Qed.
+End ModalMoist.
+
+(** ** the np.unique branch, and include_vertical_advection = False *)
+Section UniqueBranch.
+  Context {F : Type} {o : Ops F} {Fc : FieldC o}.
+  Add Field FFu : (field_c : FieldTh o).
+  Hypothesis two_nz : two <> 0.
+  Hypothesis feqb_sound : forall x y : F, feqb x y = true -> x = y.
+  Variable c : @PEcfg F.
+
+  (** when the code skips the branch, the skipped term is exactly zero *)
+  Theorem unique_branch_zero (w : nat -> F) n :
+    (n < cK c)%nat -> tref_nonuniform c = false -> vertical_tendency c w (cTref c) n = 0.
+  Proof.
+    intros Hn H. apply vertical_tendency_const; [exact Hn|]. now apply tref_uniform_spec.
+  Qed.
+
+  (** hence the tendency does not depend on the branch at all *)
+  Theorem temp_vertical_tendency_branch_free (va : bool) (x : NCol) n :
+    (n < cK c)%nat ->
+    temp_vertical_tendency c va x n
+    = (if va then vertical_tendency c (sigma_dot_full c x) (n_temp x) n else 0)
+      + vertical_tendency c (sigma_dot_explicit c x) (cTref c) n.
+  Proof.
+    intros Hn. unfold temp_vertical_tendency. cbv zeta.
+    destruct (tref_nonuniform c) eqn:E; [reflexivity|].
+    rewrite (unique_branch_zero _ n Hn E). ring.
+  Qed.
+
+  (** the test is "some entry differs from the first", i.e. np.unique(...).size > 1 *)
+  Hypothesis feqb_refl : forall x : F, feqb x x = true.
+  Theorem tref_nonuniform_iff :
+    tref_nonuniform c = true <-> exists k, (k < cK c)%nat /\ cTref c k <> cTref c 0%nat.
+  Proof.
+    unfold tref_nonuniform. rewrite existsb_exists. split.
+    - intros (k & Hin & Hk). apply in_seq in Hin. exists k. split; [lia|].
+      intro E. rewrite E, feqb_refl in Hk. discriminate.
+    - intros (k & Hk & Hne). exists k. split; [apply in_seq; lia|].
+      destruct (feqb (cTref c k) (cTref c 0%nat)) eqn:E; [|reflexivity].
+      exfalso. apply Hne. now apply feqb_sound.
+  Qed.
+
+  (** include_vertical_advection = False: the sum still contains the advection of
+      the reference profile by the full sigma_dot, so it is split dependent
+      unless both profiles are level-uniform *)
+  Hypothesis th2_nz : forall k, (S k < cK c)%nat -> thickness (cb c) k + thickness (cb c) (S k) <> 0.
+  Theorem tref_split_closed_no_va (Tref T : nat -> F) (x : NCol) n :
+    (n < cK c)%nat ->
+    let ci := with_tref c Tref in
+    let xi := with_temp x (fun k => T k - Tref k) in
+    temp_vertical_tendency ci false xi n + temp_adiabatic ci xi n + temp_implicit_col ci (n_div x) n
+    = vertical_tendency c (sigma_dot_full c x) Tref n
+      + ckappa c * (T n * (u_dot_grad x n - g_part c (g_full_adiabatic x) n)).
+  Proof.
+    intros Hn ci xi.
+    pose proof (tref_split_closed two_nz feqb_sound c th2_nz Tref T x n Hn) as E. cbv zeta in E.
+    fold ci in E. fold xi in E. unfold temp_closed in E.
+    pose proof (temp_vertical_tendency_closed ci feqb_sound xi n Hn) as E1.
+    assert (E0 : temp_vertical_tendency ci false xi n = vertical_tendency ci (sigma_dot_explicit ci xi) (cTref ci) n).
+    { unfold temp_vertical_tendency. cbv zeta. destruct (tref_nonuniform ci) eqn:B; [ring|].
+      symmetry. apply vertical_tendency_const; [exact Hn|]. now apply tref_uniform_spec. }
+    rewrite E0.
+    assert (E2 : vertical_tendency c (sigma_dot_full c x) T n
+                 = vertical_tendency c (sigma_dot_full c x) (fun k => T k - Tref k) n
+                   + vertical_tendency c (sigma_dot_full c x) Tref n).
+    { rewrite <- vertical_tendency_add_x by exact Hn.
+      apply vertical_tendency_ext; [exact Hn|reflexivity|intros; ring]. }
+    rewrite E1 in E.
+    change (vertical_tendency ci (sigma_dot_full ci xi) (n_temp xi) n)
+      with (vertical_tendency c (sigma_dot_full c x) (fun k => T k - Tref k) n) in E.
+    rewrite E2 in E.
+    set (a := vertical_tendency c (sigma_dot_full c x) (fun k => T k - Tref k) n) in *.
+    set (b1 := vertical_tendency ci (sigma_dot_explicit ci xi) (cTref ci) n) in *.
+    set (b2 := temp_adiabatic ci xi n) in *. set (b3 := temp_implicit_col ci (n_div x) n) in *.
+    set (d := vertical_tendency c (sigma_dot_full c x) Tref n) in *.
+    set (e := ckappa c * (T n * (u_dot_grad x n - g_part c (g_full_adiabatic x) n))) in *.
+    transitivity (a + b1 + b2 + b3 - a); [ring|]. rewrite E. ring.
+  Qed.
+
+  Theorem tref_split_invariance_no_va_uniform (T1 T2 T : nat -> F) (x : NCol) n :
+    (n < cK c)%nat ->
+    (forall k, (k < cK c)%nat -> T1 k = T1 0%nat) -> (forall k, (k < cK c)%nat -> T2 k = T2 0%nat) ->
+    let c1 := with_tref c T1 in let c2 := with_tref c T2 in
+    let x1 := with_temp x (fun k => T k - T1 k) in let x2 := with_temp x (fun k => T k - T2 k) in
+    temp_vertical_tendency c1 false x1 n + temp_adiabatic c1 x1 n + temp_implicit_col c1 (n_div x) n
+    = temp_vertical_tendency c2 false x2 n + temp_adiabatic c2 x2 n + temp_implicit_col c2 (n_div x) n.
+  Proof.
+    intros Hn U1 U2 c1 c2 x1 x2. unfold c1, c2, x1, x2.
+    rewrite !tref_split_closed_no_va by exact Hn.
+    rewrite !(vertical_tendency_const c _ _ n Hn) by assumption. reflexivity.
+  Qed.
+End UniqueBranch.
+
+(** ** temperature equation of the moist classes at the modal layer *)
+Section ModalTemperatureMoist.
+  Context {F : Type} {o : Ops F} {Fc : FieldC o}.
+  Add Field FFtm : (field_c : FieldTh o).
+  Hypothesis two_nz : two <> 0.
+  Hypothesis feqb_sound : forall x y : F, feqb x y = true -> x = y.
+  Variables W P : Type.
+  Variable toN : (W -> F) -> P -> F.
+  Variable toM : (P -> F) -> W -> F.
+  Variable divc curlc : (W -> F) -> (W -> F) -> W -> F.
+  Variable lap clip : (W -> F) -> W -> F.
+  Hypothesis toM_lin : linear toM.
+  Hypothesis divc_lin : linear2 divc.
+  Hypothesis curlc_lin : linear2 curlc.
+  Hypothesis lap_lin : linear lap.
+  Hypothesis clip_lin : linear clip.
+
+  Variable c : @PEcfg F.
+  Hypothesis th2_nz : forall k, (S k < cK c)%nat -> thickness (cb c) k + thickness (cb c) (S k) <> 0.
+  Variable grav : F.
+
+  (** the state: nodal columns [X] (their temperature entry is ignored), absolute
+      nodal temperature [T], modal divergence [dv], modal absolute temperature [Tm],
+      modal lnps, the modal coefficients [onem] of the constant field one *)
+  Variable X : P -> @NCol F.
+  Variable T : nat -> P -> F.
+  Variable dv : nat -> W -> F.
+  Variable Tm : nat -> W -> F.
+  Variable lnps onem : W -> F.
+  Hypothesis div_nodal : forall p k, n_div (X p) k = toN (dv k) p.
+
+  Let Xs := Xs P X T.
+  Variable m : @Moist F.
+  Variable q : P -> nat -> F.
+
+  (** *** temperature equation *)
+  (** admissible state: the divergence survives to_nodal -> to_modal -> clip *)
+  Hypothesis H_roundtrip : forall s w, clip (toM (toN (dv s))) w = dv s w.
+  (** the velocity handed to div_sec_lat has the state's divergence *)
+  Hypothesis H_div_vel : forall r w,
+      clip (divc (toM (fun p => n_u (X p) r * n_sec2 (X p))) (toM (fun p => n_v (X p) r * n_sec2 (X p)))) w
+      = clip (toM (fun p => n_div (X p) r)) w.
+
+  Definition temp_base_m (r : nat) (w' : W) : F :=
+    toM (fun p => T r p * n_div (X p) r + temp_closed_moist c m (X p) (q p) (fun k => T k p) r) w'
+    + - divc (toM (fun p => n_u (X p) r * T r p * n_sec2 (X p))) (toM (fun p => n_v (X p) r * T r p * n_sec2 (X p))) w'.
+
+  Theorem temperature_modal_closed_moist (Tref : nat -> F) r w :
+    (r < cK c)%nat ->
+    (forall p, 1 + (mCpv m / (cR c / ckappa c) - 1) * q p r <> 0) ->
+    temp_tendency_explicit_moist W P toM divc clip (with_tref c Tref) m (Xs Tref) q r w
+    + temp_tendency_implicit W (with_tref c Tref) dv r w
+    = clip (temp_base_m r) w.
+  Proof.
+    intros Hr Hq. unfold temp_tendency_explicit_moist, temp_tendency_implicit.
+    set (ci := with_tref c Tref).
+    set (M := neg_temp_weights ci).
+    (* nodal total *)
+    assert (EN : forall p, temp_nodal_total_moist ci true m (Xs Tref p) (q p) r
+                   = (T r p * n_div (X p) r + temp_closed_moist c m (X p) (q p) (fun k => T k p) r)
+                     + (- (1)) * (Tref r * n_div (X p) r + matvec (cK c) M (fun s => toN (dv s) p) r)).
+    { intros p. unfold temp_nodal_total_moist.
+      pose proof (tref_split_closed_moist two_nz feqb_sound c th2_nz m Tref (fun k => T k p) (q p) (X p) r Hr (Hq p)) as E.
+      cbv zeta in E. fold ci in E. change (with_temp (X p) (fun k => T k p - Tref k)) with (Xs Tref p) in E.
+      rewrite <- E. unfold temp_implicit_col, temp_implicit_dense. fold M.
+      unfold hsa_nodal. change (n_temp (Xs Tref p) r) with (T r p - Tref r). change (n_div (Xs Tref p) r) with (n_div (X p) r).
+      change (cK ci) with (cK c). unfold matvec.
+      rewrite (sumn_ext (cK c) (fun h => M r h * toN (dv h) p) (fun h => M r h * n_div (X p) h))
+        by (intros; now rewrite div_nodal).
+      unfold Xs, Thm.PrimEq.Xs. ring. }
+    assert (EU : forall p, hsa_mu (Xs Tref p) (n_temp (Xs Tref p)) r
+                   = n_u (X p) r * T r p * n_sec2 (X p) + (- Tref r) * (n_u (X p) r * n_sec2 (X p))).
+    { intros p. unfold hsa_mu, Xs, Thm.PrimEq.Xs. cbn. ring. }
+    assert (EV : forall p, hsa_mv (Xs Tref p) (n_temp (Xs Tref p)) r
+                   = n_v (X p) r * T r p * n_sec2 (X p) + (- Tref r) * (n_v (X p) r * n_sec2 (X p))).
+    { intros p. unfold hsa_mv, Xs, Thm.PrimEq.Xs. cbn. ring. }
+    (* push through to_modal and div *)
+    set (Z := fun w' => toM (fun p => Tref r * n_div (X p) r + matvec (cK c) M (fun s => toN (dv s) p) r) w').
+    set (DV := fun w' => divc (toM (fun p => n_u (X p) r * n_sec2 (X p))) (toM (fun p => n_v (X p) r * n_sec2 (X p))) w').
+    rewrite (lin_comb clip clip_lin _ (temp_base_m r)
+               (fun w' => - Z w' + Tref r * DV w') (1)).
+    2:{ intros w'. unfold temp_base_m, Z, DV.
+        rewrite (lin_comb toM toM_lin _ _ _ _ EN w').
+        rewrite (lin2_comb divc divc_lin _ _ _ _ _ _ (- Tref r)
+                   (fun p => lin_comb toM toM_lin _ _ _ _ EU p) (fun p => lin_comb toM toM_lin _ _ _ _ EV p) w').
+        ring. }
+    rewrite (lin_comb clip clip_lin (fun w' => - Z w' + Tref r * DV w') (fun w' => (- (1)) * Z w') DV (Tref r))
+      by (intros; cbv beta; ring).
+    rewrite (lin_scal clip clip_lin (fun w' => - (1) * Z w') Z (- (1))) by (intros; cbv beta; ring).
+    unfold DV. rewrite H_div_vel.
+    (* clip Z *)
+    rewrite (lin_comb clip clip_lin Z (fun w' => matvec (cK c) M (fun s => toM (toN (dv s)) w') r)
+               (toM (fun p => n_div (X p) r)) (Tref r)).
+    2:{ intros w'. unfold Z.
+        rewrite (lin_comb toM toM_lin (fun p => Tref r * n_div (X p) r + matvec (cK c) M (fun s => toN (dv s) p) r)
+                   (fun p => matvec (cK c) M (fun s => toN (dv s) p) r)
+                   (fun p => n_div (X p) r) (Tref r)) by (intros; cbv beta; ring).
+        now rewrite (column_commutes toM toM_lin). }
+    rewrite (column_commutes clip clip_lin (cK c) M (fun s w' => toM (toN (dv s)) w') r w).
+    unfold temp_implicit_col, temp_implicit_dense. fold M. change (cK ci) with (cK c).
+    unfold matvec.
+    rewrite (sumn_ext (cK c) (fun h => M r h * clip (fun w' => toM (toN (dv h)) w') w) (fun h => M r h * dv h w)).
+    2:{ intros h _. f_equal. rewrite <- (H_roundtrip h w). apply (lin_ext clip clip_lin). reflexivity. }
+    ring.
+  Qed.
+End ModalTemperatureMoist.
